@@ -70,6 +70,27 @@ def gen_cases(ctx, n):
     return cases
 
 
+def shaped_cases(ctx):
+    """Manifest shape families: every manifest kind x layout x shape transform (no final newline, trailing blank lines,
+    whitespace-only last line, CRLF, comments, requirement already declared under another spelling), the shaped manifest
+    being the only manifest of the project; quick tier: the structural shapes of every layout + a seeded sample of the rest."""
+    rng = ctx.rng
+    adders = [k for k in sorted(rc.DEPS) if rc.det_of(k) == "DNone"]          # cheap (no semgrep run)
+    fam = rc.manifest_family()
+    if ctx.quick() and not getattr(ctx, "deep", False):
+        must = {"no_final_newline", "crlf", "other_spelling"}
+        fam = [x for x in fam if x[2] in must or rng.random() < 0.12]
+    cases = []
+    for i, (kind, layout, shape) in enumerate(fam):
+        ks = [adders[i % len(adders)]] if ctx.quick() else [adders[i % len(adders)], rc.P + "url-sandbox"]
+        for k in ks:
+            files = rc.gen_project(rng, [k], 2, [])
+            files[kind] = rc.shape_manifest(kind, layout, shape, rc.DEPS[k])
+            cases.append({"name": f"shape:{kind}:{layout}:{shape}", "files": files, "codemod": k, "options": [], "manifests": [kind],
+                          "shape": (kind, layout, shape)})
+    return cases
+
+
 def materialise(R, case):
     a = R.fresh_dir("dry")
     core.write_tree(a, case["files"])
@@ -94,10 +115,14 @@ def classify_report_diff(dry_rows, real_rows, manifests):
 def evaluate(ctx, R, case, a, b, before, dry, real):
     k = case["codemod"]
     after = core.snapshot(a)
-    replay = {"project": core.b64tree(case["files"]), "codemod": k, "options": case["options"], "manifests": case["manifests"]}
+    replay = {"project": core.b64tree(case["files"]), "codemod": k, "options": case["options"], "manifests": case["manifests"],
+              "shape": case.get("shape")}
     ctx.count("codemod:" + k.split("/")[-1])
     ctx.count("manifests:" + ("+".join(case["manifests"]) or "none"))
     ctx.count("options:" + (" ".join(case["options"]) or "none"))
+    if case.get("shape"):
+        ctx.count("manifest_layout:" + case["shape"][0] + ":" + case["shape"][1])
+        ctx.count("manifest_shape:" + case["shape"][2])
     if dry["rc"] != 0 or real["rc"] != 0 or not isinstance(dry["report"], dict) or not isinstance(real["report"], dict):
         ctx.violation("kf_run_failed", f"{case['name']}: dry rc={dry['rc']} real rc={real['rc']} (expected 0 and a report): {dry['stderr'][-300:]}",
                       {**replay, "observed": {"dry_rc": dry["rc"], "real_rc": real["rc"]}})
@@ -129,9 +154,11 @@ def evaluate(ctx, R, case, a, b, before, dry, real):
     dep = rc.DEPS.get(k)
     # a manifest "received the dependency" iff the requirement's name appears in it after the real run and did not before
     # (a setup.py may also change as a plain source file)
+    def occurrences(text):
+        return text.lower().count(dep.lower()) if dep else 0
     manifest_changed = [m for m in case["manifests"]
-                        if dep and dep.lower() in real_tree.get(m, b"").decode(errors="replace").lower()
-                        and dep.lower() not in case["files"][m].lower()]
+                        if real_tree.get(m) != case["files"][m].encode()
+                        and (not m.endswith(".py") or occurrences(real_tree.get(m, b"").decode(errors="replace")) > occurrences(case["files"][m]))]
     depid = [A.content("dep:" + dep)] if (dep and manifest_changed) else []
     T = []
     stores_paths = set(case["manifests"])
@@ -155,12 +182,128 @@ def evaluate(ctx, R, case, a, b, before, dry, real):
     return (term, bool(T) or bool(W))
 
 
+PIPELINE_PROBE = r'''
+import json, shutil, sys
+from pathlib import Path
+from codemodder.codemods.api import Metadata, ReviewGuidance
+from codemodder.codemods.base_codemod import FindAndFixCodemod
+from codemodder.codemods.regex_transformer import RegexTransformerPipeline
+from codemodder.codemods.xml_transformer import XMLTransformerPipeline, ElementAttributeXMLTransformer, NewElementXMLTransformer, NewElement
+from codemodder.context import CodemodExecutionContext
+from codemodder.project_analysis.python_repo_manager import PythonRepoManager
+from codemodder.registry import load_registered_codemods
+from codemodder.providers import load_providers
+
+class Plugin(FindAndFixCodemod):
+    @property
+    def origin(self): return "verif"
+    @property
+    def docs_module_path(self): return "core_codemods.docs"
+
+class Attr(ElementAttributeXMLTransformer):
+    change_description = "harden"
+    def __init__(self, out, file_context, results=None, **kw):
+        super().__init__(out, file_context, name_attributes_map={"httpCookies": {"requireSSL": "true"}, "a": {"x": "1"}}, results=results)
+class NewEl(NewElementXMLTransformer):
+    change_description = "add"
+    def __init__(self, out, file_context, results=None, **kw):
+        super().__init__(out, file_context, results=results, new_elements=[NewElement(name="added", parent_name="configuration", content="v")])
+
+FILES = json.loads(sys.argv[2])
+PIPES = {
+    "regex": (lambda: RegexTransformerPipeline(pattern="hello", replacement="goodbye", change_description="x"), ".txt"),
+    "xml_attr": (lambda: XMLTransformerPipeline(Attr), ".xml"),
+    "xml_new_element": (lambda: XMLTransformerPipeline(NewEl), ".xml"),
+}
+def snap(root):
+    return {str(p.relative_to(root)): p.read_bytes().decode("latin-1") for p in sorted(root.rglob("*")) if p.is_file()}
+def go(root, dry, pipe, ext, workers):
+    cm = Plugin(metadata=Metadata(name="probe", summary="s", review_guidance=ReviewGuidance.MERGE_WITHOUT_REVIEW, description="d"),
+                transformer=pipe(), default_extensions=[ext])
+    ctx = CodemodExecutionContext(root, dry, False, load_registered_codemods(), load_providers(), PythonRepoManager(root), ["*" + ext], [], {}, workers)
+    err = None
+    try:
+        cm.apply(ctx)
+    except Exception as e:
+        err = type(e).__name__
+    return {"raised": err, "failed": sorted(str(Path(p).relative_to(root)) for p in ctx.get_failures(cm.id)),
+            "changesets": [[c.path, c.diff, [[x.lineNumber, x.description] for x in c.changes]] for c in ctx.get_changesets(cm.id)]}
+out = {}
+base = Path(sys.argv[1])
+for name, (pipe, ext) in PIPES.items():
+    res = {}
+    for mode in ("dry", "real"):
+        root = base / (name + "_" + mode)
+        root.mkdir(parents=True)
+        for rel, text in FILES.items():
+            if rel.endswith(ext):
+                (root / rel).parent.mkdir(parents=True, exist_ok=True)
+                (root / rel).write_bytes(text.encode("latin-1"))
+        before = snap(root)
+        r = go(root, mode == "dry", pipe, ext, 2)
+        after = snap(root)
+        r["touched"] = sorted(p for p in set(before) | set(after) if before.get(p) != after.get(p))
+        res[mode] = r
+    out[name] = res
+print(json.dumps(out))
+'''
+
+
+def probe_files(rng):
+    """generated inputs of the plugin-pipeline probes: text files with/without the regex target, XML documents with/without the
+    elements the transformers change (nested, with attributes, comments, several per file), a malformed document"""
+    words = ["hello world", "nothing here", "say hello twice hello", "HELLO upper", ""]
+    files = {}
+    for i in range(rng.choice([3, 4])):
+        files[f"t{i}.txt"] = "".join(rng.choice(words) + "\n" for _ in range(rng.choice([1, 2, 4])))
+    files["sub/deep.txt"] = "hello from below\n"
+    cookies = ['<httpCookies requireSSL="false" httpOnlyCookies="true"/>', '<httpCookies/>', '<other k="v"/>', '<a>text</a>', '<!-- note -->']
+    for i in range(rng.choice([2, 3])):
+        body = "".join("    " + rng.choice(cookies) + "\n" for _ in range(rng.choice([1, 2, 3])))
+        files[f"conf/web{i}.xml"] = '<?xml version="1.0" encoding="utf-8"?>\n<configuration>\n  <system.web>\n' + body + "  </system.web>\n</configuration>\n"
+    files["conf/unrelated.xml"] = "<root><leaf/></root>\n"
+    files["conf/broken.xml"] = "<configuration><open></configuration>\n"
+    return files
+
+
+def pipeline_dry_probe(ctx, files):
+    import subprocess
+    d = ctx.scratch / f"pipe_probe_{len(list(ctx.scratch.glob('pipe_probe_*')))}"
+    d.mkdir()
+    p = subprocess.run([core.PY, "-c", PIPELINE_PROBE, str(d), json.dumps(files)], env=core.cli_env(), stdout=subprocess.PIPE,
+                       stderr=subprocess.PIPE, timeout=600)
+    line = [l for l in p.stdout.decode().splitlines() if l.startswith("{")]
+    if not line:
+        raise RuntimeError("pipeline probe failed: " + p.stderr.decode()[-800:])
+    return json.loads(line[-1])
+
+
+def check_pipeline_probes(ctx, files, tag):
+    """C04 on the regex and XML pipelines (public API, used by plugin codemods only): real classes through BaseCodemod.apply with
+    dry_run=True on a scratch directory, and the same with dry_run=False on a copy."""
+    out = pipeline_dry_probe(ctx, files)
+    for name, r in out.items():
+        ctx.count("pipeline_probe:" + name)
+        changed = bool(r["real"]["changesets"])
+        ctx.case({"pipeline": name, "files": sorted(files), "real_changesets": [c[0] for c in r["real"]["changesets"]]},
+                 nontrivial_key=(name, json.dumps(files, sort_keys=True)) if changed else None)
+        replay = {"pipeline_probe": name, "probe_files": files, "observed": r}
+        if r["dry"]["touched"]:
+            ctx.violation("kf_dry_run_writes", f"{tag}: {name} pipeline with dry_run=True modified {r['dry']['touched']}",
+                          {**replay, "expected": "no path of the target directory differs after a dry run"})
+        if (r["dry"]["changesets"], r["dry"]["failed"], r["dry"]["raised"]) != (r["real"]["changesets"], r["real"]["failed"], r["real"]["raised"]):
+            ctx.violation("kf_dry_report_differs", f"{tag}: {name} pipeline: change sets / failures of the dry run differ from the real run: "
+                          f"{[c[0] for c in r['dry']['changesets']]} vs {[c[0] for c in r['real']['changesets']]}",
+                          {**replay, "expected": "identical change sets and failures"})
+    return out
+
+
 def run(ctx: core.Ctx):
     R = rc.Runner(ctx)
-    n = 20 if ctx.quick() else 200
+    n = 10 if ctx.quick() else 200
     if getattr(ctx, "deep", False):
         n *= 2
-    cases = corpus_cases() + gen_cases(ctx, n)
+    cases = corpus_cases() + gen_cases(ctx, n) + shaped_cases(ctx)
     prepared = []
     for c in cases:
         a, b = materialise(R, c)
@@ -195,6 +338,8 @@ def run(ctx: core.Ctx):
             c = meta[i]
             ctx.violation("kf_dry_run_writes", f"{c['name']}: a path's content changed under --dry-run ({c['codemod']})",
                           {"project": core.b64tree(c["files"]), "codemod": c["codemod"], "options": c["options"], "manifests": c["manifests"]})
+    for i in range(2 if ctx.quick() else 12):
+        check_pipeline_probes(ctx, probe_files(ctx.rng), f"probe:{i}")
     rc.audit_lifts(ctx)
     # active branch of the table-indexed statement
     tv = ctx.tables or {}
@@ -210,6 +355,14 @@ def run(ctx: core.Ctx):
 
 
 def replay(ctx, body):
+    if "pipeline_probe" in body:
+        out = check_pipeline_probes(ctx, body["probe_files"], "replay")
+        r = out[body["pipeline_probe"]]
+        print("dry run touched:", r["dry"]["touched"], "| dry change sets:", [c[0] for c in r["dry"]["changesets"]],
+              "| real change sets:", [c[0] for c in r["real"]["changesets"]])
+        for v in ctx.violations:
+            print(" -", v["class"], v["what"][:300])
+        return 0 if not ctx.violations else 1
     R = rc.Runner(ctx)
     files = {k: base64.b64decode(v).decode() for k, v in body["project"].items()}
     c = {"name": "replay", "files": files, "codemod": body["codemod"], "options": body.get("options", []), "manifests": body.get("manifests", [])}
